@@ -63,6 +63,8 @@ def required_reach(tier: str) -> dict[str, int]:
         "range2d.invalid": 50,
         "ranges_type.str": 100,
         "ranges_type.list": 100,
+        "ranges_type.ints": 100,
+        "uri.path": 50,
         "spelling.hex": 100,
         "spelling.oct": 100,
         "spelling.bin": 100,
@@ -210,6 +212,32 @@ def case_uri(ctx: Any, rng: random.Random) -> None:
     want_flat = {k: str(v) for k, v in args.items()}
     if flat != want_flat:
         ctx.violation("uri/params-differ", "parameter map differs after round trip", {"kind": "uri", "case": case, "got": flat})
+    if scheme in ("unix-lines", "unix") or rng.random() < 0.1:
+        # socket paths (and any other path the user wrote) are part of what the URI denotes
+        from urllib.parse import quote as _q
+
+        pth = "/" + "/".join("".join(rng.choice("abcXYZ019-_.~") for _ in range(rng.randint(1, 8))) for _ in range(rng.randint(1, 4)))
+        if rng.random() < 0.3:
+            pth += rng.choice(["/a b", "/ä", "/x%y"])
+        qs = raw.split("?", 1)[1] if "?" in raw else ""
+        forms = [f"{scheme}://{_q(pth)}" + (f"?{qs}" if qs else "")]
+        if port is not None or kind != "ipv6":
+            forms.append(raw.split("?", 1)[0] + _q(pth) + (f"?{qs}" if qs else ""))
+        for raw3 in forms:
+            ctx.reach("uri.path")
+            try:
+                u3 = TargetURI(raw3)
+                got_path = u3.path
+                flat3 = u3.qs_flat
+            except Exception as e:
+                ctx.violation(f"uri/path/raises/{type(e).__name__}", "a URI with a path cannot be read", {"kind": "uri", "case": {**case, "uri": raw3}, "error": repr(e)})
+                continue
+            from urllib.parse import unquote as _uq
+
+            if got_path is None or _uq(got_path) != pth:
+                ctx.violation("uri/path-differs", "the path of the URI is not the one written", {"kind": "uri", "case": {**case, "uri": raw3}, "got": got_path, "want": pth})
+            if flat3 != want_flat:
+                ctx.violation("uri/params-differ/with-path", "parameter map differs when the URI has a path", {"kind": "uri", "case": {**case, "uri": raw3}, "got": flat3})
     if args and rng.random() < 0.4:
         # a key written twice: the documented reading (TargetURI.qs_flat) is "the first found key/value pair"
         from urllib.parse import quote
@@ -345,7 +373,8 @@ def case_range1d(ctx: Any, rng: random.Random) -> None:
     chunks = expr.split(",")
     # items separated by commas or by white space (the documented forms), never by both at once
     ws = "".join(c + rng.choice([" ", "  ", ",", "\t"]) for c in chunks[:-1]) + chunks[-1]
-    for form, val in (("str", ws), ("list", chunks)):
+    # "ints": the value as a config file / a default hands it over (already a list of integers) must pass through unchanged
+    for form, val in (("str", ws), ("list", chunks), ("ints", list(want))):
         ctx.reach(f"ranges_type.{form}")
         try:
             g2 = ta.validate_python(val)
@@ -418,7 +447,8 @@ def case_range2d(ctx: Any, rng: random.Random) -> None:
     if got != want or list(got) != list(want):
         ctx.violation("range2d/wrong-map" + ("/bare-outer" if bare else ""), "unravel_2d result differs from the denoted map", {"kind": "range2d", "input": expr, "got": repr(got)[:400], "want": repr(want)[:400]})
     ta = pydantic.TypeAdapter(Ranges2D)
-    for form, val in (("str", expr), ("list", entries)):
+    # "map": the value as a config file / a default hands it over (already a mapping) must pass through unchanged
+    for form, val in (("str", expr), ("list", entries), ("map", dict(want))):
         try:
             g2 = ta.validate_python(val)
         except Exception as e:
